@@ -11,6 +11,7 @@ use http::{Method, StatusCode};
 use url::Url;
 use encoding_rs::Encoding;
 //@@ define head
+//@@ subsumes framing body head
 verus! {
 
 //@@ include io_prelude
